@@ -63,8 +63,10 @@ func ApplySetter(u *url.Url, which int, v string) {
 	case spec.SetterPassword:
 		u.SetPassword(v)
 	case spec.SetterHost:
+		interfereHostValue(u, v)
 		u.SetHost(v)
 	case spec.SetterHostname:
+		interfereHostValue(u, v)
 		u.SetHostname(v)
 	case spec.SetterPort:
 		u.SetPort(v)
@@ -77,6 +79,17 @@ func ApplySetter(u *url.Url, which int, v string) {
 	default:
 		panic("bad setter")
 	}
+}
+
+// interfereHostValue: just before a host setter the package-level parser parses the same host text
+// under a scheme of the other class (domain vs opaque host). What a setter does must not depend on
+// what was parsed before it (a memo of the last host keyed by its text alone).
+func interfereHostValue(u *url.Url, v string) {
+	other := "git://"
+	if !u.IsSpecialScheme() {
+		other = "http://"
+	}
+	_, _ = url.Parse(other + v + "/")
 }
 
 // outcome of one parse through an entry point
